@@ -343,7 +343,11 @@ def ensure_facts(repo="/repo"):
         log(f"no cached facts for source state {h} ({nfiles} files): extracting")
         out_dir = os.path.join(d, "jsonl")
         run_driver(repo, out_dir)
-        load_jsonl(out_dir, dbpath, {"hash": h, "repo": repo, "files": nfiles, "time": time.time()})
+        tmpdb = dbpath + ".partial"
+        if os.path.exists(tmpdb):
+            os.remove(tmpdb)
+        load_jsonl(out_dir, tmpdb, {"hash": h, "repo": repo, "files": nfiles, "time": time.time()})
+        os.replace(tmpdb, dbpath)      # an interrupted load never leaves a usable-looking fact base behind
         shutil.rmtree(out_dir, ignore_errors=True)
         prune_cache(keep=24)
         return dbpath
